@@ -296,6 +296,8 @@ package keeper
 //@ loop 0: invariant DistrReceived == old(DistrReceived) && DistrAllocated == old(DistrAllocated)
 //@ loop 1: invariant forall d Str :: { ext("DecCoins.AmountOf", remaining, d) } ext("DecCoins.AmountOf", remaining, d) * totalPower >= ext("DecCoins.AmountOf", oracleReward, d) * (totalPower - psumP(toReward, #i))
 //@ loop 1: invariant forall d Str :: { ext("DecCoins.AmountOf", remaining, d) } DistrAllocated[d] + ext("DecCoins.AmountOf", remaining, d) == old(DistrAllocated)[d] + DistrReceived[d] - old(DistrReceived)[d]
+// (an element that is skipped is skipped alone: no break ends the visit of the rest)
+//@ loop 0: exhaustive
 
 // ---- C13: data-source fees --------------------------------------------------------------------------------
 // The collector accumulates what has been charged for this request so far (over ALL data sources, not only the
@@ -378,6 +380,8 @@ package keeper
 //@ loop 0: invariant forall d Str :: ext("Coins.AmountOf", fcCollected(collector), d) <= ext("Coins.AmountOf", feeLimit, d)
 //@ loop 0: invariant forall d Str :: FeePaid[d] - old(FeePaid)[d] == ext("Coins.AmountOf", fcCollected(collector), d)
 //@ loop 1: invariant true
+// (an element that is skipped is skipped alone: no break ends the visit of the rest)
+//@ loop 0: exhaustive
 
 // ---- C19: what a (re)starting yoda is told it still has to report ---------------------------------------------------
 // yoda reads this list once at start-up; requests committed before it subscribed reach it no other way. The list must be
